@@ -549,9 +549,9 @@ func (fr *Frame) markEscaped(v Val) {
 	}
 }
 
-func (fr *Frame) havocAllHeap() {
-	r := fr.R
-	// boxed locals whose address never left this frame cannot be written by the code being abstracted
+// keepOwnBoxes remembers the boxed locals whose address never left this frame (or the frames it is inlined in): the
+// code being abstracted cannot write them. The returned function restores them after the havoc.
+func (fr *Frame) keepOwnBoxes() func() {
 	for _, a := range fr.pendingArgs {
 		fr.markEscaped(a)
 	}
@@ -566,18 +566,29 @@ func (fr *Frame) havocAllHeap() {
 		}
 	}
 	for f := fr; f != nil; f = f.parent {
-		for _, l := range f.ownBoxes {
+		var keys []string
+		for k := range f.ownBoxes {
+			keys = append(keys, k)
+		}
+		sort.Strings(keys)
+		for _, k := range keys {
+			l := f.ownBoxes[k]
 			if fr.st.vol[l.Ref.S] {
 				continue
 			}
 			boxes = append(boxes, kept{l, fr.load(l)})
 		}
 	}
-	defer func() {
+	return func() {
 		for _, k := range boxes {
 			fr.store(k.l, k.v)
 		}
-	}()
+	}
+}
+
+func (fr *Frame) havocAllHeap() {
+	r := fr.R
+	defer fr.keepOwnBoxes()()
 	var keep map[string]Term
 	if r.monitor != nil && fr.st.held[r.monitor.Name] && !fr.noKeep {
 		keep = map[string]Term{}
